@@ -173,7 +173,9 @@ class Oblig:
         def has(ev):
             d = arg_deps(ev, argidx) if argidx is not None else frozenset()
             if ctrl_ok or argidx is None:
-                d = d | ev.ctrl
+                # control dependence, whether the guard encloses the call or sits before it as an early
+                # `if not guard: continue / return`
+                d = d | ev.ctrl | ev.xctrl
             return tag in d
         good = [ev for ev, _ in evs if has(ev)]
         bad = [ev for ev, _ in evs if not has(ev)]
@@ -618,3 +620,39 @@ def name_origins(fn_node):
                 direct[k] = new
                 changed = True
     return direct
+
+
+def _fact_exprs(facts):
+    for text, pol, _names in facts:
+        try:
+            yield ast.parse(text, mode="eval").body, pol
+        except SyntaxError:
+            continue
+
+
+def facts_imply_nonempty(facts, seq_txt) -> bool:
+    """Some branch fact on the path implies len(<seq_txt>) >= 1 (any spelling: truthiness, len comparisons, != [])."""
+    return any((min_len(e, pol, seq_txt) or 0) >= 1 for e, pol in _fact_exprs(facts))
+
+
+def facts_imply_empty(facts, seq_txt) -> bool:
+    """Some atomic branch fact on the path is an emptiness test of <seq_txt> with the `empty` outcome (its other
+    outcome would imply non-emptiness)."""
+    return any(not isinstance(e, ast.BoolOp) and (min_len(e, not pol, seq_txt) or 0) >= 1 for e, pol in _fact_exprs(facts))
+
+
+def element_of_field_or_copy(summ: Summary, av: Optional[AV], field_loc) -> bool:
+    """The value can be (identity) an element of the collection stored at field_loc, or of a copy of it made in the
+    closure (`.copy()`, set(..), list(..), sorted(..) of the field)."""
+    if av is None:
+        return False
+    if may_be_element_of(av, field_loc):
+        return True
+    roots = set()
+    for ev, _ in summ.walk():
+        if ev.kind in ("bcall", "call") and ev.result is not None and (ev.callee or "").rsplit(".", 1)[-1] in (
+                "copy", "set", "list", "sorted", "frozenset", "union"):
+            src = ev.recv if ev.recv is not None else (ev.args[0] if ev.args else None)
+            if src is not None and field_loc in src.alias:
+                roots |= {l for l in ev.result.alias if l[0].startswith("fresh:")}
+    return any((l[0], ()) in {(r[0], ()) for r in roots} and l[1][:1] == ("[]",) for l in av.alias)
